@@ -43,6 +43,7 @@ type schedPlan struct {
 	Schedule schedule    `json:"schedule"`
 	StepCap  int64       `json:"step_cap,omitempty"`
 	Record   string      `json:"record,omitempty"`
+	Shared   []string    `json:"shared_ent,omitempty"`       // caller buffers several tasks pass windows of (Op.Shared)
 	Foreign  bool        `json:"foreign_possible,omitempty"` // the tree starts goroutines of its own (set from the instrumenter's report)
 	Grants   bool        `json:"want_grants,omitempty"`
 	Focus    []int       `json:"focus,omitempty"` // informational: languages in focus
@@ -82,6 +83,7 @@ type schedOut struct {
 	Grants      []grant            `json:"grants,omitempty"`
 	NGrants     int                `json:"n_grants"`
 	Foreign     int64              `json:"foreign_hook_calls,omitempty"`
+	SharedMut   string             `json:"shared_buffer_mutated,omitempty"`
 }
 
 type c12Engine struct {
@@ -233,6 +235,9 @@ func (g *c12Engine) runPlan(sp *schedPlan, env ...string) (*schedOut, *schedVerd
 	}
 	if out.StepCap {
 		return &out, &schedVerdict{Inconclusive: "step cap reached"}, nil
+	}
+	if out.SharedMut != "" {
+		return &out, &schedVerdict{Class: "shared-input-modified", Key: "shared-input-modified", Detail: out.SharedMut}, nil
 	}
 	// every op's outcome equals its solo outcome
 	for t := range sp.Tasks {
@@ -589,6 +594,24 @@ func genSchedPlan(seed uint64, pool []plan.Op, byLang map[int][]int, neutral []i
 		}
 		sp.Tasks = append(sp.Tasks, ops)
 	}
+	if len(sp.Tasks) >= 2 && r.Intn(5) == 0 { // several callers pass windows of ONE caller-owned buffer (read-only sharing of input)
+		for try := 0; try < 30; try++ {
+			op := pool[cand[r.Intn(len(cand))]]
+			if op.K != "ent" || op.Nil || len(op.Ent) < 32 {
+				continue
+			}
+			sp.Shared = []string{op.Ent}
+			for k := 0; k < r.Range(2, 4); k++ {
+				o := op
+				o.Shared, o.Cap, o.Scribble = 1, 0, false
+				o.Lang = sp.Focus[r.Intn(len(sp.Focus))]
+				t := r.Intn(len(sp.Tasks))
+				at := r.Intn(len(sp.Tasks[t]) + 1)
+				sp.Tasks[t] = append(sp.Tasks[t][:at], append([]plan.Op{o}, sp.Tasks[t][at:]...)...)
+			}
+			break
+		}
+	}
 	sc := schedule{Mode: "policy", Seed: r.Uint64()}
 	switch x := r.Intn(10); {
 	case x < 4:
@@ -761,6 +784,9 @@ func CheckC12(e *Env) (int, error) {
 					if id == 0 {
 						tagSwitch["device-read"] += c
 					}
+				}
+				if len(sp.Shared) > 0 {
+					probes["runs_with_a_caller_buffer_shared_by_several_tasks"]++
 				}
 				if st.BlockedOnOnce > 0 {
 					probes["task_blocked_on_running_once"]++
